@@ -127,6 +127,15 @@ def r1(ctx):
                 if not all(_spec_has_precision(sp_) for sp_ in specs):
                     probs.append(f'polygon vertices are formatted with {[show(sp_, 40) for sp_ in specs]}: the requested '
                                  'precision does not reach them (they are always written with a fixed number of decimals)')
+            elif t['kind'] in ('skycoord', 'skycoords') and t['comp'] in ('lon', '*'):
+                # the numbers are read back in the frame named on the frame line (default attributes): the field's own
+                # coordinate must be transformed to that frame before it is printed
+                txt = show(t['expr'], 6000)
+                own = f'attr:transform_to(attr:frame(region.{t["field"]}))'
+                if own not in txt or 'frame_transform_graph.lookup_name(' not in txt:
+                    probs.append(f'{t["field"]} is printed in its own frame (with its own frame attributes), not in the frame '
+                                 'written on the frame line: a line whose end is galactic and whose start is icrs, or an FK5 '
+                                 'coordinate with equinox J1975, comes back with the raw numbers under another frame')
             elif t['kind'] == 'size':
                 e = t['expr']
                 inner = e.args[0] if isinstance(e, App) and e.name == 'fstring' and len(e.args) == 1 else None
@@ -143,6 +152,13 @@ def r1(ctx):
                 ratio = sp.simplify(inner / base)
                 if ratio == sp.Rational(1, 2):
                     halved.add(t['field'])
+                    # the reader doubles the number: to keep the full axis within half a unit of the requested precision
+                    # the semi-axis needs (at least) one more decimal
+                    txt = show(e, 3000)
+                    if 'prec + 1' not in txt and 'prec + 2' not in txt:
+                        probs.append(f'{t["field"]} is written as a semi-axis with the requested number of decimals; doubled on '
+                                     'reading, the axis is only good to one full unit of the precision (1.01 at precision 2 comes '
+                                     'back as 1.02)')
                 elif ratio != 1:
                     probs.append(f'{t["field"]} is written as {show(inner, 80)} (neither the value nor the semi-axis)')
         # reader side
@@ -556,7 +572,7 @@ def r7(ctx):
 
 
 # ---------------------------------------------------------------- text / tags
-PLACEHOLDERS = {'T': 'Aa Bb', 'G1': 'g1 x', 'G2': 'g2'}
+PLACEHOLDERS = {'T': 'Aa Bb', 'G1': 'g1 x', 'G2': 'g2', 'STALE': 'stale meta text'}
 
 
 def render(t, ph):
@@ -644,6 +660,8 @@ def r8(ctx):
         flds = {'meta': DictV([{'tag': Tup((G1, G2), 'list')}]), 'visual': DictV([{}])}
         if shape == 'text':
             flds['text'] = T
+            # a stale meta text must not win over the region's text parameter
+            flds['meta'] = DictV([{'text': S('STALE'), 'tag': Tup((G1, G2), 'list')}])
         else:
             flds['meta'] = DictV([{'text': T, 'tag': Tup((G1, G2), 'list')}])
         reg = Obj(cname, flds, 'region', ci)
